@@ -276,3 +276,47 @@ def execute(scn):
         res['sample'] = {'kind': 'mutation', 'apps': apps, 'app': a,
                          'mutations': muts, 'gone': sorted(gone)}
     return res
+
+
+def shrinks(scn):
+    P = scn['project']
+    if scn.get('fault'):
+        c = copy.deepcopy(scn)
+        c.pop('fault')
+        yield c
+    if any(scn['rows'].values()):
+        c = copy.deepcopy(scn)
+        c['rows'] = {t: [] for t in c['rows']}
+        yield c
+    # drop an app that is neither removed / deleting nor referenced
+    keep = set(scn.get('removed') or []) | {scn.get('deleting_app')}
+    refd = set()
+    for a in P['apps']:
+        for m in P['apps'][a]['v0']:
+            for f in m['fields']:
+                if f.get('to'):
+                    refd.add(f['to'].split('.')[0])
+    for a in sorted(P['apps']):
+        if a in keep or a in refd or len(P['apps']) <= 2:
+            continue
+        c = copy.deepcopy(scn)
+        gone = set(common.app_tables({'apps': {a: {'models':
+                                                   P['apps'][a]['v0']}}},
+                                     [a]))
+        del c['project']['apps'][a]
+        c['project']['order'] = [x for x in c['project']['order'] if x != a]
+        for t in gone:
+            c['rows'].pop(t, None)
+        yield c
+    # drop a field not named anywhere (plain fields only)
+    for a in sorted(P['apps']):
+        for mi, m in enumerate(P['apps'][a]['v0']):
+            for fi, f in enumerate(m['fields']):
+                if f['kind'] in spec.REL_KINDS or \
+                        spec.fields_in_meta(m).get(f['name']):
+                    continue
+                c = copy.deepcopy(scn)
+                del c['project']['apps'][a]['v0'][mi]['fields'][fi]
+                for r in c['rows'].get(spec.table_name(a, m), []):
+                    r.pop(spec.column_name(f), None)
+                yield c
